@@ -2,6 +2,8 @@ package q
 
 import (
 	"fmt"
+	"go/types"
+	"strings"
 
 	"golang.org/x/tools/go/ssa"
 
@@ -218,4 +220,156 @@ func (c *Ctx) StaysInLoop(fn *ssa.Function, skip Cond, loop Cond, why string) {
 			}
 		}
 	}
+}
+
+// TypeOf looks up a named type of a module package ("<pkg suffix>", "Name").
+func (c *Ctx) TypeOf(pkgSuffix, name string) types.Type {
+	pk := c.P.ByPath[load.Mod+pkgSuffix]
+	if pk == nil || pk.Types == nil {
+		c.Fail("anchor", pkgSuffix, "package resolves", "-", "package not loaded")
+		return nil
+	}
+	o := pk.Types.Scope().Lookup(name)
+	if o == nil {
+		c.Fail("anchor", pkgSuffix+"."+name, "type resolves", "-", "type not found")
+		return nil
+	}
+	return o.Type()
+}
+
+// DecisionTable (K13): for every assignment of the given atomic conditions
+// (canonical forms), the target call is reachable from the entry only through
+// a block that calls one of the verifiers; assignments listed in exempt are
+// reported as discharged with the reason.
+func (c *Ctx) DecisionTable(fn *ssa.Function, atoms []string, names []string, verifiers, target string, exempt map[string]string, why string, loopCond ...string) {
+	if fn == nil {
+		return
+	}
+	fnName := load.QualName(fn)
+	starts := []*ssa.BasicBlock{fn.Blocks[0]}
+	var header *ssa.BasicBlock
+	if len(loopCond) > 0 {
+		es := CondEdges(fn, Cond{Canon: loopCond[0], Sense: true})
+		if len(es) != 1 {
+			c.Fail("anchor", fnName, "K13: loop `"+loopCond[0]+"` present once", "-", fmt.Sprintf("matched %d", len(es)))
+			return
+		}
+		starts = []*ssa.BasicBlock{es[0].To()}
+		header = es[0].From
+	}
+	// resolve atoms to branches
+	type br struct {
+		b  *ssa.BasicBlock
+		ts int
+	}
+	atomBr := make([][]br, len(atoms))
+	for _, b := range fn.Blocks {
+		ifi, ok := b.Instrs[len(b.Instrs)-1].(*ssa.If)
+		if !ok {
+			continue
+		}
+		s, ts := IfCanon(ifi)
+		for i, a := range atoms {
+			if MatchCond(a, s) {
+				atomBr[i] = append(atomBr[i], br{b, ts})
+			}
+		}
+	}
+	for i, a := range atoms {
+		if len(atomBr[i]) == 0 {
+			c.Fail("anchor", fnName, "K13: dispatch atom `"+a+"` present", "-", "the dispatch no longer branches on this predicate; the decision table must be re-confirmed")
+			return
+		}
+	}
+	okRets := map[ssa.Instruction]bool{}
+	for _, r := range SuccessExits(fn) {
+		okRets[r] = true
+	}
+	isCall := func(b *ssa.BasicBlock, spec string) ssa.Instruction {
+		if spec == "return" {
+			if last := b.Instrs[len(b.Instrs)-1]; okRets[last] {
+				return last
+			}
+			return nil
+		}
+		for _, ins := range b.Instrs {
+			if ci, ok := ins.(ssa.CallInstruction); ok && Callee(ci.Common()).Match(spec) {
+				return ins
+			}
+		}
+		return nil
+	}
+	infeasible := InfeasibleEdges(fn)
+	for mask := 0; mask < 1<<len(atoms); mask++ {
+		var label []string
+		cut := union(EdgeSet{}, infeasible)
+		for i := range atoms {
+			val := mask&(1<<i) != 0
+			label = append(label, fmt.Sprintf("%s=%v", names[i], val))
+			for _, x := range atomBr[i] {
+				// cut the edge that contradicts the assignment
+				if val {
+					cut[Edge{x.b, 1 - x.ts}] = true
+				} else {
+					cut[Edge{x.b, x.ts}] = true
+				}
+			}
+		}
+		cls := strings.Join(label, ",")
+		// flood, stopping at verifier blocks
+		seen := map[*ssa.BasicBlock]bool{}
+		var hit ssa.Instruction
+		var dfs func(b *ssa.BasicBlock)
+		dfs = func(b *ssa.BasicBlock) {
+			if seen[b] || hit != nil {
+				return
+			}
+			seen[b] = true
+			if b == header {
+				// the iteration completed without meeting a verifier
+				hit = b.Instrs[len(b.Instrs)-1]
+				return
+			}
+			vi := isCall(b, verifiers)
+			ti := isCall(b, target)
+			if ti != nil && (vi == nil || instrIndex(ti) < instrIndex(vi)) {
+				hit = ti
+				return
+			}
+			if vi != nil {
+				return
+			}
+			for i, s := range b.Succs {
+				if !cut[Edge{b, i}] {
+					dfs(s)
+				}
+			}
+		}
+		for _, sb := range starts {
+			dfs(sb)
+		}
+		c.Sites++
+		what := "class {" + cls + "} reaches a verifier before " + target
+		if hit == nil {
+			c.OK("K13", fnName, what, "-", why)
+		} else if reason, ok := exempt[cls]; ok {
+			c.OK("K13", fnName, what, c.At(hit), "exempt: "+reason)
+		} else {
+			c.Fail("K13", fnName, what, c.At(hit), "this class of transaction is applied without any verifier ("+why+")")
+		}
+	}
+}
+
+// CondCount (K5): exactly n branches of fn test the given canonical condition.
+func (c *Ctx) CondCount(fn *ssa.Function, canon string, n int, why string) {
+	if fn == nil {
+		return
+	}
+	es := CondEdges(fn, Cond{Canon: canon, Sense: true})
+	c.Sites += len(es)
+	site := "-"
+	if len(es) > 0 {
+		site = c.At(es[0].From.Instrs[len(es[0].From.Instrs)-1])
+	}
+	c.Check(len(es) == n, "K5", load.QualName(fn), fmt.Sprintf("%d branch(es) decide on `%s`", n, canon), site, fmt.Sprintf("found %d (%s)", len(es), why))
 }
